@@ -19,10 +19,15 @@ from .common import MachineryError
 
 GEN_INVARIANTS = ["GenShape", "GenValid", "GenStrict", "NormalIdem", "DeviationIsInvalid", "TolerantStaysValid", "EmitState"]
 
+# A tier is a list of passes (roots, K, KV, shards):  K = refinement depth, variants are taken
+# from states of depth < KV.  All shards of all passes run in one pool.
 TIERS = {
-    # K: refinement depth, KV: variants taken from states of depth <= KV
-    "quick": dict(K=1, KV=0, shards=16),
-    "thorough": dict(K=2, KV=1, shards=32),
+    "quick": [dict(roots="all", K=1, KV=1, shards=12),
+              dict(roots="response", K=2, KV=0, shards=6),
+              dict(roots="alias", K=3, KV=0, shards=2)],
+    "thorough": [dict(roots="all", K=2, KV=2, shards=32),
+                 dict(roots="response", K=3, KV=0, shards=24),
+                 dict(roots="alias", K=4, KV=0, shards=4)],
 }
 
 
@@ -77,11 +82,19 @@ def one_shard(args):
             for f in fl:
                 fails.append({"session": sess[f["sid"]], "l": f["l"], "c": sorted(f["c"]), "pos": sorted(f["pos"]) if f["pos"] else []})
     samples = []
-    if shard == 0 and counts["sessions"]:
+    by_kind = {}
+    if counts["sessions"]:
         allsess = json.load(open(trace, encoding="utf-8"))["sessions"]
-        samples = allsess[:2] + allsess[-1:]
+        for s_ in allsess:
+            by_kind[s_["sk"]] = by_kind.get(s_["sk"], 0) + 1
+        if shard == 0:
+            seen = set()
+            for s_ in allsess:
+                if s_["sk"] not in seen and len(json.dumps(s_)) < 4000:
+                    seen.add(s_["sk"])
+                    samples.append(s_)
     os.unlink(trace)
-    return {"shard": shard, "generated": sg, "distinct": sd, "sessions": counts["sessions"], "events": counts["events"],
+    return {"shard": shard, "by_kind": by_kind, "generated": sg, "distinct": sd, "sessions": counts["sessions"], "events": counts["events"],
             "fails": fails, "samples": samples, "t": [round(t1 - t0, 1), round(t2 - t1, 1), round(time.time() - t2, 1)]}
 
 
@@ -91,13 +104,11 @@ def dep_files(pkg_path, model):
     return files
 
 
-def run(tier, model=None, pkg_path=None, roots="all", use_cache=True, params=None):
+def run(tier, model=None, pkg_path=None, use_cache=True, passes=None):
     model = model or os.path.join(common.REPO, "generator", "lsp.json")
     pkg_path = pkg_path or os.path.join(common.REPO, "packages", "python")
-    prm = dict(TIERS[tier])
-    if params:
-        prm.update(params)
-    key = common.file_hash(dep_files(pkg_path, model))[:24] + "-%s-%s-%d-%d" % (tier, roots, prm["K"], prm["KV"])
+    passes = passes or TIERS[tier]
+    key = common.file_hash(dep_files(pkg_path, model))[:24] + "-" + common.hashlib.sha1(json.dumps(passes, sort_keys=True).encode()).hexdigest()[:10]
     cpath = os.path.join(common.CACHE, "codec-" + key + ".json")
     if use_cache and os.path.exists(cpath):
         try:
@@ -109,18 +120,22 @@ def run(tier, model=None, pkg_path=None, roots="all", use_cache=True, params=Non
     work = common.scratch("codec-")
     t0 = time.time()
     try:
-        n = prm["shards"]
-        jobs = [(prm["K"], prm["KV"], n, s, roots, model, pkg_path, work) for s in range(n)]
-        with cf.ThreadPoolExecutor(max_workers=min(common.NCPU, n)) as ex:
+        jobs = []
+        for pi, ps in enumerate(passes):
+            d = os.path.join(work, "p%d" % pi)
+            os.makedirs(d)
+            jobs += [(ps["K"], ps["KV"], ps["shards"], s, ps["roots"], model, pkg_path, d) for s in range(ps["shards"])]
+        with cf.ThreadPoolExecutor(max_workers=common.NCPU) as ex:
             parts = list(ex.map(one_shard, jobs))
     finally:
         shutil.rmtree(work, ignore_errors=True)
     res = {
-        "tier": tier, "K": prm["K"], "KV": prm["KV"], "roots": roots,
+        "tier": tier, "passes": passes,
         "states": sum(p["distinct"] for p in parts),
         "transitions": sum(p["generated"] for p in parts),
         "sessions": sum(p["sessions"] for p in parts),
         "events": sum(p["events"] for p in parts),
+        "by_kind": {k: sum(p["by_kind"].get(k, 0) for p in parts) for k in sorted({k for p in parts for k in p["by_kind"]})},
         "fails": [f for p in parts for f in p["fails"]],
         "samples": [s for p in parts for s in p["samples"]],
         "wall_s": round(time.time() - t0, 1),
@@ -138,6 +153,7 @@ def run(tier, model=None, pkg_path=None, roots="all", use_cache=True, params=Non
 if __name__ == "__main__":
     r = run(sys.argv[1] if len(sys.argv) > 1 else "quick", use_cache=False)
     print(json.dumps({k: v for k, v in r.items() if k not in ("fails", "samples")}))
+    print(len(r["fails"]), "failing events")
     import collections
     c = collections.Counter()
     for f in r["fails"]:
